@@ -286,5 +286,38 @@ func (c *Ctx) RunC10(tier string) {
 		}
 	}
 	rep.Bound = fmt.Sprintf("10 canonical files per dialect x M in %v: truncation at every byte; every single corruption (delete / duplicate / transpose a field, 27 replacement numbers, 5 bad mnemonics, 5 bad modes, 22 insertions (directives in every form incl. five-field, mixed-case, hexadecimal and fractional ones, a 70000-character comment, a ;redcode line) at every line boundary), also without the final newline; every pair of corruptions (quick: for the first 3 files); (thorough) every single corruption truncated at every byte", sizes)
+	// very long lines: a comment line (and an instruction line padded with blanks)
+	// of 2^k-1, 2^k, 2^k+1 bytes for k in 10..22, followed by valid lines and by
+	// a line with an unknown mnemonic: nothing after the long line may be lost
+	unit := 0
+	for _, legacy := range []bool{false, true} {
+		lines := canonicalFiles(legacy, 8000)[2]
+		bad := "XYZ.F $ 0, $ 0"
+		if legacy {
+			bad = "XYZ $ 0, $ 0"
+		}
+		for k := 10; k <= 22; k++ {
+			for d := -1; d <= 1; d++ {
+				unit++
+				if !c.Sh.Mine(unit) || c.expired() {
+					continue
+				}
+				L := (1 << k) + d
+				if k > 20 && !thorough && d != 0 {
+					continue
+				}
+				long := ";" + strings.Repeat("x", L-1)
+				padded := lines[len(lines)-2] + strings.Repeat(" ", L-len(lines[len(lines)-2]))
+				head := strings.Join(lines[:1], "\n") + "\n"
+				rest := strings.Join(lines[1:], "\n") + "\n"
+				for _, mid := range []string{long, padded} {
+					c.check10(&textCase{M: 8000, Legacy: legacy, Text: head + mid + "\n" + rest, Note: fmt.Sprintf("a line of %d bytes, valid lines after it", L)})
+					c.check10(&textCase{M: 8000, Legacy: legacy, Text: head + mid + "\n" + bad + "\n" + rest, Note: fmt.Sprintf("a line of %d bytes, an unknown mnemonic after it", L)})
+					rep.Count("c10:very-long-lines")
+				}
+			}
+		}
+	}
+	rep.Bound += "; a comment line and a blank-padded instruction line of 2^k-1, 2^k, 2^k+1 bytes for k in 10..22 (quick: 2^21 and 2^22 only exactly) followed by valid lines and by a line with an unknown mnemonic"
 	rep.Sample(strings.Join(canonicalFiles(true, 8000)[4], "\n") + "\n")
 }
